@@ -159,6 +159,16 @@ theorem bcfRecords_encode (cols contigs : List String) (recs : List (String × N
 
 /-! ## the whole file -/
 
+theorem length_le_flatMap_bcfEncodeRec (contigs : List String) (ncols : Nat) (recs : List (String × Nat × List GtRes)) :
+    recs.length ≤ (recs.flatMap (fun r => bcfEncodeRec contigs ncols r.1 r.2.1 r.2.2)).length := by
+  induction recs with
+  | nil => simp
+  | cons r rs ih =>
+    simp only [List.flatMap_cons, List.length_append, List.length_cons]
+    rw [bcfEncodeRec_eq]
+    simp only [List.length_append, toLe32_length]
+    omega
+
 theorem bcfDecode_bcfEncode (cols contigs : List String) (recs : List (String × Nat × List GtRes))
     (h : WfCallSet cols contigs recs) (hs : FitsBcf cols contigs recs) :
     bcfDecode (bcfEncode cols contigs recs) = some (cols, toRecs recs) := by
@@ -172,8 +182,10 @@ theorem bcfDecode_bcfEncode (cols contigs : List String) (recs : List (String ×
     (recs.flatMap (fun r => bcfEncodeRec contigs cols.length r.1 r.2.1 r.2.2))
   have hrecs := bcfRecords_encode cols contigs recs hs.ncols hs.ncontigs h.recs_wf hs.pos
     ((recs.flatMap (fun r => bcfEncodeRec contigs cols.length r.1 r.2.1 r.2.2)).length + 1) (by
-      sorry)
+      have := length_le_flatMap_bcfEncodeRec contigs cols.length recs; omega)
   simp only [bcfEncode, toLe32, List.cons_append, List.nil_append, bcfDecode, e1, t1]
-  simp [hhdr, hrecs]
+  have hl : (headerText cols contigs ++ [0]).getLast? = some 0 := by simp
+  have hd : (headerText cols contigs ++ [0]).dropLast = headerText cols contigs := by simp
+  simp only [hl, hd, hhdr, hrecs, ne_eq, not_true_eq_false, and_false, if_false, Option.map_some]
 
 end Sfs
